@@ -84,8 +84,32 @@ def text_of(parts):
 
 # ---------------------------------------------------------------------------
 
-def u1_u5(ctx, F):
+def _play_host(F):
+    """command_position, or - when the move list is played by a helper that could not be expanded in place (it returns from inside
+    its loop with its own error type) - that helper, read with its own bindings"""
     fn = F.fn(POS)
+
+    def plays_in(h):
+        return any(n.get("k") == "MethodCall" and hir.callee_of(n) in ("chess::Game::push_history", "chess::Game::push") for n, _ in hir.walk(h["body"]))
+    if plays_in(fn["hir"]):
+        return fn
+    seen, todo = set(), [fn["hir"]]
+    while todo:
+        h = todo.pop()
+        for n, _ in hir.walk(h["body"]):
+            if n.get("k") in ("Call", "MethodCall"):
+                c = hir.callee_of(n)
+                if c in hir.HELPER_HIR and c not in seen:
+                    seen.add(c)
+                    hh = hir.HELPER_HIR[c]
+                    if plays_in(hh):
+                        return dict(fn, hir=hh, helper=c)
+                    todo.append(hh)
+    return fn
+
+
+def u1_u5(ctx, F):
+    fn = _play_host(F)
     body = fn["hir"]["body"]
     env = hir.Env(fn["hir"], F)
     sym = hir.Sym(env, F)
@@ -317,7 +341,7 @@ def u3(ctx, F, D):
     from . import inline
     r = F.fn(RD)
     try:
-        rnf = position_values(summarize_with_returns(r, F), F)
+        rnf = hir.unsuffix(position_values(summarize_with_returns(r, F), F))
     except (hir.Unsupported, inline.Cannot) as e:
         ctx.check("C12.U3", "reader-summarisable", False, fn=RD, file=r["file"], nontrivial=False,
                   what="Move::from_uci_notation can no longer be summarised (loop / unsupported shape): %s" % e)
@@ -332,7 +356,9 @@ def u3(ctx, F, D):
         base = {("var", sname): ("lit", text)}
         home = dict(base)
         home[king] = ("pos", row, 4)
-        got = hir.fold(rnf, home, D)
+        from .common import chess_evalcalls
+        ev = chess_evalcalls(None, {})
+        got = hir.fold(hir.fold(rnf, home, D, None, ev), home, D, None, ev)
         want = ("ctor", "std::prelude::v1::Some", (("struct", MV + variant, (("owner", ("variant", PL + owner)),)),))
         ok = got == want
         n_ok += ok
@@ -341,7 +367,7 @@ def u3(ctx, F, D):
                   expected=(variant, owner), found=hir.fmt(got, 160))
         away = dict(base)
         away[king] = ("pos", 3, 3)
-        got2 = hir.fold(rnf, away, D)
+        got2 = hir.fold(hir.fold(rnf, away, D, None, ev), away, D, None, ev)
         castle = got2[0] == "ctor" and got2[2] and got2[2][0][0] == "struct" and str(got2[2][0][1]).startswith(MV + "Castling")
         undecided = hir.contains(got2, ("struct", MV + variant, (("owner", ("variant", PL + owner)),)))
         ctx.check("C12.U3", "reader:%s-only-with-king-on-e%d" % (text, row + 1), not castle and not undecided, fn=RD, file=r["file"],
@@ -400,6 +426,32 @@ def u4(ctx, F, D):
                         off = hir.sym_int(x[3]) if hir.sym_int(x[3]) is not None else off
                 seq.append((n["pat"]["name"], off))
     ok = [o for _, o in seq] == [97, 49, 97, 49]
+    if not ok:
+        # the byte may be read in one `let` and decoded in another (a helper taking the two bytes of a square): pair every decoding
+        # with the read it depends on; the reads in source order must be decoded with 'a', '1', 'a', '1'
+        from .common import dependence_nodes
+        reads = [n for n, _ in hir.walk(r["hir"]["body"]) if n.get("k") == "SLet" and n["pat"].get("k") == "PBind" and n.get("init") is not None
+                 and any(c.get("k") == "MethodCall" and c["name"] == "next" for c, _ in hir.walk(n["init"]))]
+        by_id = {n["pat"]["id"]: i for i, n in enumerate(reads)}
+        paired = {}
+        for n, anc in hir.walk(r["hir"]["body"]):
+            if n.get("k") == "SLet" and n["pat"].get("k") == "PBind" and n.get("init") is not None:
+                off = None
+                for x, _ in hir.walk(n["init"]):
+                    if x.get("k") == "MethodCall" and x["name"] in ("wrapping_sub", "checked_sub") and x.get("args"):
+                        off = hir.sym_int(sym(x["args"][0]))
+                    if x.get("k") == "Binary" and x.get("op") == "-" and hir.sym_int(sym(x["r"])) is not None:
+                        off = hir.sym_int(sym(x["r"]))
+                if off is None:
+                    continue
+                deps = {by_id[d["to"]["id"]] for d in dependence_nodes(n["init"], r["hir"]) if d.get("k") == "Path" and d["to"].get("res") == "local"
+                        and d["to"].get("id") in by_id}
+                if n["pat"]["id"] in by_id:
+                    deps.add(by_id[n["pat"]["id"]])
+                if len(deps) == 1:
+                    paired.setdefault(next(iter(deps)), []).append(off)
+        seq = [("read#%d" % i, paired.get(i)) for i in range(len(reads))]
+        ok = len(reads) == 4 and [paired.get(i) for i in range(4)] == [[97], [49], [97], [49]]
     ctx.check("C12.U4", "reader:decodes-file,rank,file,rank", ok, fn=RD, file=r["file"],
               what="the reader must decode the four characters as file-'a', rank-'1', file-'a', rank-'1' in that order",
               expected=[97, 49, 97, 49], found=seq)
